@@ -3,6 +3,7 @@ package main
 // Query assembly and the solver portfolio.
 
 import (
+	"regexp"
 	"bytes"
 	"context"
 	"fmt"
@@ -255,20 +256,27 @@ func (o *Obl) candidateModel(header string, opts SolveOpts) {
 		name = name[len(name)-150:]
 	}
 	mfile := filepath.Join(opts.Dir, name+".cand.smt2")
-	os.WriteFile(mfile, []byte(o.Query(lightHeader(header), true)), 0644)
-	for _, s := range solvers {
-		if s.Name == "z3-new" {
+	os.WriteFile(mfile, []byte(pruneUnused(o.Query(lightHeader(header), true))), 0644)
+	// the model search is seed sensitive (z3 answers sat for one seed and unknown for the next on the same query):
+	// a few seeds, first sat wins
+	for _, seed := range []int{0, 1, 2} {
+		for _, s := range solvers {
+			if s.Name != "z3-new" && seed != 0 {
+				continue // the other two solvers get one attempt each
+			}
 			oo := opts
 			oo.TimeoutS = 5
+			oo.Seed = seed
 			c2, cancel2 := context.WithTimeout(context.Background(), 10*time.Second)
 			r, text, _ := runSolver(c2, s, mfile, oo)
 			cancel2()
 			if os.Getenv("GOVC_DEBUG") != "" {
-				fmt.Fprintln(os.Stderr, "candidate model search:", o.Name, r, len(text))
+				fmt.Fprintln(os.Stderr, "candidate model search:", o.Name, "seed", seed, r, len(text))
 			}
 			if r == "sat" {
 				o.Model = text
 				o.Candidate = true
+				return
 			}
 		}
 	}
@@ -314,3 +322,53 @@ func lightHeader(h string) string {
 	}
 	return strings.Join(out, "\n")
 }
+
+var declNameRe = regexp.MustCompile(`^\((declare-fun|declare-datatype|declare-const|define-fun|define-sort) ([^ ()]+)`)
+var strFactRe = regexp.MustCompile(`^\(assert \(= \((strlen|strat) [0-9]+`)
+
+// pruneUnused drops from a model-search query the single-line declarations whose symbol is used nowhere else and
+// the ground facts about string constants the query never mentions. Only used for candidate models (a candidate
+// counts for nothing unless the replay reproduces it), so dropping irrelevant context is harmless; it matters
+// because z3's model search on the same obligation succeeds or times out depending on unrelated declarations.
+func pruneUnused(q string) string {
+	lines := strings.Split(q, "\n")
+	for pass := 0; pass < 4; pass++ {
+		text := strings.Join(lines, "\n")
+		var out []string
+		changed := false
+		for _, l := range lines {
+			if m := declNameRe.FindStringSubmatch(l); m != nil && strings.Count(l, "\n") == 0 && balanced(l) {
+				name := m[2]
+				if strings.Count(text, name) <= strings.Count(l, name) {
+					changed = true
+					continue
+				}
+			}
+			out = append(out, l)
+		}
+		lines = out
+		if !changed {
+			break
+		}
+	}
+	// string constant facts: keep only if a non-fact line talks about strings at all
+	uses := false
+	for _, l := range lines {
+		if !strFactRe.MatchString(l) && !strings.HasPrefix(l, "(declare-fun str") && (strings.Contains(l, "(strat ") || strings.Contains(l, "(strlen ")) && !strings.HasPrefix(l, "(assert (forall") && !strings.HasPrefix(l, "(assert (= (strlen 0) 0))") {
+			uses = true
+		}
+	}
+	if !uses {
+		var out []string
+		for _, l := range lines {
+			if strFactRe.MatchString(l) {
+				continue
+			}
+			out = append(out, l)
+		}
+		lines = out
+	}
+	return strings.Join(lines, "\n")
+}
+
+func balanced(l string) bool { return strings.Count(l, "(") == strings.Count(l, ")") }
